@@ -10,22 +10,26 @@ bind: harness/transport/c19_test.go   histories -> real SetConfig/NewTransport/r
       harness/proxy/c19_test.go       behaviour cases -> real HTTPProxy against a slow upstream
       thorough: the fabio binary built from $VERIF_REPO with -proxy.responseheadertimeout
 """
-import json, os, socket, subprocess, threading, time, http.server, urllib.request, urllib.error
+import json, os, subprocess, time
 from lib import vf
 
 CFG = """SPECIFICATION %(spec)s
 CONSTANTS
   Configs <- MCConfigs
   DelayClasses <- MCDelays
+  Operator <- MCOperator
   MaxOps = %(n)d
   SelfAssign = %(bug)s
-INVARIANTS TypeOK CarriesConfigured LimitsEnforced
+  ExtraLimit = "%(extra)s"
+  LateSetConfig = %(late)s
+INVARIANTS %(inv)s
 CHECK_DEADLOCK FALSE
 """
+LIB_INV = "TypeOK CarriesConfigured LimitsEnforced NoOtherLimit ConcurrencyBounded IdlePerHostKept"
 
 
-def cfg(spec, n, bug=False):
-    return CFG % dict(spec=spec, n=n, bug="TRUE" if bug else "FALSE")
+def cfg(spec, n, bug=False, extra="none", late=False, inv=LIB_INV):
+    return CFG % dict(spec=spec, n=n, bug="TRUE" if bug else "FALSE", extra=extra, late="TRUE" if late else "FALSE", inv=inv)
 
 
 def fields(ctx, path, what):
@@ -33,9 +37,39 @@ def fields(ctx, path, what):
     return r if ctx.need_go_ok(r, what) else None
 
 
-def behaviour(ctx, path, what):
-    r = ctx.gotest("proxy", ["proxy/c19_test.go"], "^TestVerifC19Behaviour$", env={"VERIF_IN": path}, timeout=300)
-    return r if ctx.need_go_ok(r, what) else None
+def behaviour(ctx, path, what, conc=None, exe=None):
+    env = {}
+    if path:
+        env["VERIF_IN"] = path
+    if conc:
+        env["VERIF_IN_CONC"] = conc
+    if exe:
+        env["VERIF_FABIO_BIN"] = exe
+    r = ctx.gotest("proxy", ["proxy/c19_test.go"], "^TestVerifC19Behaviour$", env=env, timeout=600)
+    if not ctx.need_go_ok(r, what):
+        return None
+    errs = r.of_kind("error")
+    if errs:
+        ctx.inconclusive("%s: harness error: %s" % (what, errs[0].get("msg")))
+        return None
+    return r
+
+
+def build_fabio(ctx):
+    """the fabio binary of the tree under test (main()'s wiring is only reachable through it)"""
+    gobin, genv = vf.go_tool()
+    exe = os.path.join(ctx.tmp, "fabio-c19")
+    t0 = time.time()
+    try:
+        p = subprocess.run([gobin, "build", "-o", exe, "."], cwd=vf.REPO, env=genv, capture_output=True, text=True, timeout=900)
+    except subprocess.TimeoutExpired:
+        ctx.inconclusive("binary: go build timed out")
+        return None
+    if p.returncode != 0:
+        ctx.inconclusive("binary: fabio does not build:\n%s" % (p.stdout + p.stderr)[-2000:])
+        return None
+    ctx.log("binary: built in %.0fs" % (time.time() - t0))
+    return exe
 
 
 def run(ctx):
@@ -55,11 +89,21 @@ def run(ctx):
         ctx.inconclusive("Transport MC: actions never taken: %s" % mc.coverage0)
         return
     ctx.cover("mc", states=mc.distinct, transitions=mc.generated)
-    bug = ctx.tlc("Transport_MC", cfg_text=cfg("Spec", 3, bug=True), workers=2, timeout=300)
-    if bug.violated not in ("CarriesConfigured", "LimitsEnforced"):
-        ctx.inconclusive("non-vacuity: the deviation SelfAssign should violate CarriesConfigured on the model but TLC reports %r %s"
-                         % (bug.violated, (bug.error or "")[:300]))
+    # the start-up order of main()
+    mm = ctx.tlc("Transport_MC", cfg_text=cfg("MainSpec", 0, inv="MainCarries MainServes"), workers=1, timeout=300)
+    if not ctx.need_tlc_ok(mm, "Transport Main"):
         return
+    ctx.cover("main", states=mm.distinct, transitions=mm.generated)
+    # non-vacuity: every named deviation violates the property it is about
+    for name, kw, spec, inv in (("SelfAssign", dict(bug=True), "Spec", "CarriesConfigured"),
+                                ("ExtraLimit=maxidletotal", dict(extra="maxidletotal"), "Spec", "IdlePerHostKept"),
+                                ("ExtraLimit=maxconns", dict(extra="maxconns"), "Spec", "ConcurrencyBounded"),
+                                ("LateSetConfig", dict(late=True), "MainSpec", "MainCarries")):
+        r = ctx.tlc("Transport_MC", cfg_text=cfg(spec, 3, inv=inv, **kw), workers=1, timeout=300)
+        if r.violated != inv:
+            ctx.inconclusive("non-vacuity: the deviation %s should violate %s on the model but TLC reports %r %s"
+                             % (name, inv, r.violated, (r.error or "")[:300]))
+            return
 
     hist = os.path.join(ctx.tmp, "c19.hist")
     g = ctx.tlc("Transport_MC", cfg_text=cfg("GenSpec", n), workers=8, json_sink=hist, timeout=600)
@@ -70,15 +114,20 @@ def run(ctx):
     b = ctx.tlc("Transport_MC", cfg_text=cfg("BehSpec", 1), workers=1, json_sink=beh, timeout=300)
     if not ctx.need_tlc_ok(b, "Transport Beh"):
         return
+    conc = os.path.join(ctx.tmp, "c19.conc")
+    b2 = ctx.tlc("Transport_MC", cfg_text=cfg("Beh2Spec", 1), workers=1, json_sink=conc, timeout=300)
+    if not ctx.need_tlc_ok(b2, "Transport Beh2"):
+        return
 
     # S->C: fields
     r = fields(ctx, hist, "C19 fields")
     if r is None:
         return
     s = r.summary
-    ctx.log("fields: %d histories, %d transports built, %d compared, keep-alive observed on %d, dial timeout on %d transports (%s); %d failed, %.0fs"
+    ctx.log("fields: %d histories, %d transports built, %d compared, keep-alive observed on %d, dial timeout on %d transports (%s), "
+            "%d with limits the documentation is silent about; %d failed, %.0fs"
             % (s["cases"], s["builds"], s["compared"], s["keepalive_observed"], s["dial_transports"],
-               "evaluated" if s["dial_evaluated"] else "NOT evaluated", s["fails"], r.wall))
+               "evaluated" if s["dial_evaluated"] else "NOT evaluated", s.get("undocumented_limits", 0), s["fails"], r.wall))
     ctx.take_failures(r, "fields")
     if s.get("dial_unstable"):
         ctx.inconclusive("dial timeout: the test process kept stalling while the dials were measured (%s)"
@@ -88,21 +137,31 @@ def run(ctx):
     ctx.cover(traces_validated_against_impl=s["cases"], evaluations=s["compared"], distinct_nontrivial=s["distinct_nontrivial"],
               samples=(s.get("samples") or [])[:2])
 
-    # S->C: behaviour
-    r2 = behaviour(ctx, beh, "C19 behaviour")
+    # S->C: behaviour (single requests, concurrent requests, idle reuse) and main()'s wiring (the binary)
+    exe = build_fabio(ctx)
+    if exe is None:
+        return
+    r2 = behaviour(ctx, beh, "C19 behaviour", conc=conc, exe=exe)
     if r2 is None:
         return
     s2 = r2.summary
-    ctx.log("behaviour: %d cases, %d requests (%d retries); %d failed, %.0fs" % (s2["cases"], s2["ran"], s2["retried"], s2["fails"], r2.wall))
+    ctx.log("behaviour: %d cases, %d requests (%d retries); concurrent/reuse: %d cases (%d runs, %d void); binary: %d requests over the 3 routes of the first table; %d failed, %.0fs"
+            % (s2["cases"], s2["ran"], s2["retried"], s2["conc_cases"], s2["conc_ran"], s2["conc_voided"], s2.get("binary_ran", 0),
+               s2["fails"], r2.wall))
     ctx.take_failures(r2, "behaviour")
-    if s2.get("unstable"):
+    if s2.get("unstable") or s2.get("conc_unstable") or s2.get("binary_unstable"):
         ctx.inconclusive("behaviour: the test process kept stalling while the requests were measured (%s)"
                          % [n.get("msg") for n in r2.of_kind("note")][:3])
-    ctx.cover(traces_validated_against_impl=s2["cases"], evaluations=s2["ran"], distinct_nontrivial=s2["distinct_nontrivial"],
-              samples=(s2.get("samples") or [])[:2],
+    if not s2.get("binary_ran"):
+        ctx.inconclusive("binary: the built fabio was not exercised")
+    ctx.cover(traces_validated_against_impl=s2["cases"] + s2["conc_cases"] + (1 if s2.get("binary_ran") else 0),
+              evaluations=s2["ran"] + s2["conc_ran"] + s2.get("binary_ran", 0),
+              distinct_nontrivial=s2["distinct_nontrivial"] + s2["conc_nontrivial"],
+              samples=(s2.get("samples") or [])[:1] + (s2.get("conc_samples") or [])[:1],
               rule="one case per complete history of SetConfig/NewTransport/AddTargetTransport TLC enumerated, plus one per behaviour "
-                   "case (configuration x previous configuration x kind x delay class); non-trivial = histories of >=3 operations with a "
-                   "SetConfig, behaviour cases with a delayed upstream")
+                   "case (configuration x previous configuration x kind x delay class), per concurrency case (k = 1, maxconn, maxconn+1, "
+                   "10 maxconn) and per idle-reuse case (bursts A, B, A); non-trivial = histories of >=3 operations with a "
+                   "SetConfig, behaviour cases with a delayed upstream, bursts of more than one request")
 
     # binding self-tests: a corrupted expectation must be rejected by each harness
     with open(hist) as fh:
@@ -139,143 +198,27 @@ def run(ctx):
     if not t2.of_kind("fail"):
         ctx.inconclusive("binding self-test: a corrupted expected status was NOT rejected by the harness")
 
-    if ctx.thorough:
-        binary(ctx)
-
-
-# --------------------------------------------------------------------------- the real binary
-def free_port():
-    s = socket.socket()
-    s.bind(("127.0.0.1", 0))
-    p = s.getsockname()[1]
-    s.close()
-    return p
-
-
-class Slow(http.server.BaseHTTPRequestHandler):
-    protocol_version = "HTTP/1.1"
-
-    def do_GET(self):
-        d = 0
-        if "d=" in self.path:
-            try:
-                d = int(self.path.split("d=")[1].split("&")[0])
-            except ValueError:
-                d = 0
-        time.sleep(d / 1000.0)
-        try:
-            self.send_response(200)
-            self.send_header("Content-Length", "2")
-            self.end_headers()
-            self.wfile.write(b"ok")
-        except Exception:
-            pass
-
-    def log_message(self, *a):
-        pass
-
-
-def get(url, timeout):
-    t0 = time.time()
-    try:
-        with urllib.request.urlopen(url, timeout=timeout) as resp:
-            resp.read()
-            return resp.status, time.time() - t0, None
-    except urllib.error.HTTPError as e:
-        return e.code, time.time() - t0, None
-    except Exception as e:
-        return None, time.time() - t0, e
-
-
-def binary(ctx):
-    """main's wiring: fabio built from the tree, -proxy.responseheadertimeout 300ms, static registry."""
-    gobin, genv = vf.go_tool()
-    exe = os.path.join(ctx.tmp, "fabio-c19")
-    t0 = time.time()
-    try:
-        p = subprocess.run([gobin, "build", "-o", exe, "."], cwd=vf.REPO, env=genv, capture_output=True, text=True, timeout=600)
-    except subprocess.TimeoutExpired:
-        ctx.inconclusive("binary: go build timed out")
-        return
-    if p.returncode != 0:
-        ctx.inconclusive("binary: fabio does not build:\n%s" % (p.stdout + p.stderr)[-2000:])
-        return
-    ctx.log("binary: built in %.0fs" % (time.time() - t0))
-    up = http.server.ThreadingHTTPServer(("127.0.0.1", 0), Slow)
-    up.daemon_threads = True
-    threading.Thread(target=up.serve_forever, daemon=True).start()
-    uport = up.server_address[1]
-    T = 0.3
-    proc = None
-    log = os.path.join(ctx.tmp, "fabio-c19.log")
-    try:
-        for attempt in range(3):
-            pport, aport = free_port(), free_port()
-            args = [exe, "-proxy.addr", "127.0.0.1:%d" % pport, "-ui.addr", "127.0.0.1:%d" % aport,
-                    "-registry.backend", "static",
-                    "-registry.static.routes", "route add svc / http://127.0.0.1:%d/" % uport,
-                    "-proxy.responseheadertimeout", "300ms", "-proxy.dialtimeout", "2s",
-                    "-metrics.target", "", "-log.level", "WARN"]
-            proc = subprocess.Popen(args, stdout=open(log, "w"), stderr=subprocess.STDOUT, cwd=ctx.tmp)
-            ready = False
-            deadline = time.time() + 30
-            while time.time() < deadline and proc.poll() is None:
-                st, _, _ = get("http://127.0.0.1:%d/?d=0" % pport, 2)
-                if st == 200:
-                    ready = True
-                    break
-                time.sleep(0.1)
-            if ready:
-                break
-            proc.kill()
-            proc.wait()
-            proc = None
-        if proc is None:
-            ctx.inconclusive("binary: fabio did not start serving the static route:\n%s" % open(log).read()[-1500:])
-            return
-        url = "http://127.0.0.1:%d/" % pport
-        n = 0
-        for d, want in ((0, 200), (30, 200), (3000, 504), (30, 200), (3000, 504)):
-            verdict = None
-            strikes = 0
-            for _ in range(3):
-                st, el, err = get(url + "?d=%d" % d, T + 1.5 + d / 4000.0 + 2)
-                n += 1
-                if want == 504 and st != 504:
-                    verdict = ("not-cut-off", "status %s after %.2fs (err %s); upstream needs %d ms, -proxy.responseheadertimeout 300ms: want 504 within %.1fs" % (st, el, err, d, T + 1.5))
-                    strikes += 1
-                    if strikes >= 2:
-                        break
-                    continue
-                if want == 504 and el > T + 1.5:
-                    verdict = ("late", "504 after %.2fs, want within %.1fs" % (el, T + 1.5))
-                    continue
-                if want == 200 and st != 200:
-                    verdict = ("timely-upstream-not-served", "status %s after %.2fs (err %s); upstream answers after %d ms" % (st, el, err, d))
-                    continue
-                verdict = None
-                break
-            if verdict:
-                ctx.violation({"sub": "binary", "clause": verdict[0]}, "binary: fabio -proxy.responseheadertimeout 300ms: " + verdict[1],
-                              replay={"sub": "binary", "case": {"delay": d, "want": want}})
-        ctx.cover("binary", evaluations=n, traces_validated_against_impl=1)
-        ctx.log("binary: %d requests through the built fabio" % n)
-    finally:
-        if proc is not None:
-            proc.terminate()
-            try:
-                proc.wait(10)
-            except subprocess.TimeoutExpired:
-                proc.kill()
-        up.shutdown()
-        up.server_close()
 
 
 def replay(ctx, rp):
     sub = (rp.get("replay") or {}).get("sub")
     case = (rp.get("replay") or {}).get("case")
-    if sub == "binary":
-        binary(ctx)
+    feats = rp.get("features") or {}
+    if feats.get("sub") == "binary":
+        exe = build_fabio(ctx)
+        if exe:
+            r = behaviour(ctx, None, "C19 replay", exe=exe)
+            if r is not None:
+                ctx.cover(evaluations=1)
+                ctx.take_failures(r, "behaviour")
+        return
+    if feats.get("sub") in ("concurrent", "reuse"):
+        one = os.path.join(ctx.tmp, "c19.replay")
+        vf.write_ndjson(one, [case])
+        r = behaviour(ctx, None, "C19 replay", conc=one)
+        if r is not None:
+            ctx.cover(evaluations=1)
+            ctx.take_failures(r, "behaviour")
         return
     one = os.path.join(ctx.tmp, "c19.replay")
     vf.write_ndjson(one, [case])
